@@ -1,6 +1,7 @@
 """X05 - the zone-file reader's state across lines ($ORIGIN, $TTL, $INCLUDE, $GENERATE, owner /
 TTL / class inheritance) and the forcing options of dns.zonefile.read_rrsets.
 Growth of the specification beyond C01-C20 (DESIGN.md section 7); not in MANIFEST.json."""
+import concurrent.futures as cf
 import itertools
 import json
 import os
@@ -69,17 +70,17 @@ def jobs_for(ctx, fam, k, hist, quick):
     """The API configurations one behaviour is loaded through (round-robin, deterministic)."""
     s = ctx.seed
     if fam == "r1":
-        opts = RR_OPTS if not quick else [o for j, o in enumerate(RR_OPTS) if (j + k + s) % 2 == 0]
+        opts = [o for j, o in enumerate(RR_OPTS) if (j + k + s) % 2 == 0]
         # texts that have a second reading are not inputs of the abstract line (environment assumption):
         # no owner column although the name is not forced; "<pref> <target>" with neither TTL nor type stated
         # while the TTL is not forced (the preference would be read as the TTL)
         opts = [o for o in opts if not any((l["owner"][0] == "omit" and not o["fname"]) or
                                            (not l["yg"] and l["ttl"] < 0 and o["fttl"] < 0) for l in hist)]
         return [(mkcfg({"how": "rrsets"}, **o), {"how": "rrsets", "factory": "-", "rel": bool((k + j) % 2)}) for j, o in enumerate(opts)]
-    ndrv = 1 if quick else 4
+    ndrv = 1 if quick or fam in ("g1", "g2", "g3", "g3b") else 2
     drvs = [DRVS[(k * 3 + s + j * 5) % len(DRVS)] for j in range(ndrv)]
     if fam in ("g3", "g3b", "g6"):
-        extra = [INC_CFGS[(k + s + j) % len(INC_CFGS)] for j in range(1 if quick else 3)] + [INC_CFGS[0]]
+        extra = [INC_CFGS[(k + s + j) % len(INC_CFGS)] for j in range(1)] + [INC_CFGS[0]]
     elif fam in ("g4", "g7"):
         extra = [GEN_CFGS[(k + s) % len(GEN_CFGS)]]
     elif fam == "g5":
@@ -150,21 +151,20 @@ def run(ctx):
         jobs = [case["job"]]
     else:
         ctx.model("MC_ZoneReader", "MC_ZoneReader_quick.cfg" if quick else "MC_ZoneReader_thorough.cfg", workers=1 if quick else 4)
+        ctx.model("MC_ZoneReader", "MC_ZoneReader_gen.cfg", workers=1)
         beh = []
         only = os.environ.get("X05_FAMS")   # development convenience (mutation harness): run some families only
 
         def generate(ctx, name, *a, **kw):
             return generate_all(ctx, name, *a, **kw) if not only or name.split(".")[0] in only.split(",") else []
-        beh += generate(ctx, "g1.cfg", "G1", 4 if quick else 5)
-        beh += generate(ctx, "g2.cfg", "G2", 4 if quick else 5)
-        beh += generate(ctx, "g3.cfg", "G3", 4 if quick else 5)
-        beh += generate(ctx, "g3b.cfg", "G3b", 4 if quick else 5)
-        beh += generate(ctx, "g4.cfg", "G4", 3 if quick else 4)
-        beh += generate(ctx, "g5.cfg", "G5", 3 if quick else 4)
-        beh += generate(ctx, "g7.cfg", "G7", 2)
-        beh += generate(ctx, "r1.cfg", "R1", 2 if quick else 3)
         nsim = 1500 if quick else 20000
-        beh += generate(ctx, "g6.cfg", "G6", 6, simulate="num=%d" % nsim, depth=8, seed=ctx.seed + 5, limit=nsim)
+        plan = [("g1.cfg", "G1", 4 if quick else 5, {}), ("g2.cfg", "G2", 4 if quick else 5, {}), ("g3.cfg", "G3", 4 if quick else 5, {}),
+                ("g3b.cfg", "G3b", 4 if quick else 5, {}), ("g4.cfg", "G4", 3 if quick else 4, {}), ("g5.cfg", "G5", 3 if quick else 4, {}),
+                ("g7.cfg", "G7", 2, {}), ("r1.cfg", "R1", 2 if quick else 3, {}),
+                ("g6.cfg", "G6", 6, dict(simulate="num=%d" % nsim, depth=8, seed=ctx.seed + 5, limit=nsim))]
+        with cf.ThreadPoolExecutor(max_workers=len(plan)) as ex:   # single-worker JVMs, run side by side
+            for part in ex.map(lambda a: generate(ctx, a[0], a[1], a[2], **a[3]), plan):
+                beh += part
         jobs = []
         for k, (fam, hist) in enumerate(beh):
             for j, (cfg, drv) in enumerate(jobs_for(ctx, fam, k, hist, quick)):
@@ -196,4 +196,15 @@ def run(ctx):
         ctx.drift = len(off)
         ctx.extra["drift_error_line_number"] = {"traces_with_located_refusal": len(witherr), "line_number_differs": len(off),
                                                 "example": [dict(tr["ev"][ln - 1]["res"], tid=tr["tid"]) for tr, ln, c in off[:3] if ln]}
+    # measured (never a verdict): is the pinned tree explained by ONE reading, PolA (restore owner and TTL state after an
+    # include, inherit the owner into it, SOA MINIMUM as default, read_rrsets inherits, $GENERATE sets the owner,
+    # from_text's include default off)?  Judged on the accepted traces in which a policy field can matter.
+    free = [tr for tr in traces if id(tr) not in bad and (tr["cfg"]["api"] == "rrsets" or any(
+        e.get("k") in ("inc", "gen") or e.get("y") == "SOA" for e in tr["ev"]))]
+    if not quick or os.environ.get("X05_PINNED"):
+        before = ctx.traces
+        off = ctx.validate("Trace_ZoneReader", "Trace_ZoneReader_pinned.cfg", free)
+        ctx.traces = before
+        ctx.extra["reading_PolA"] = {"traces_where_a_policy_field_matters": len(free), "not_explained_by_PolA": len(off),
+                                     "example": [tr["tid"] for tr, ln, c in off[:3]]}
     ctx.evaluations = loads
